@@ -99,6 +99,35 @@ CHECKS['C13'] = ('4/C13',
     'to the millisecond); "date + n" is judged where the Excel clause applies (operand and result from 1 March 1900).',
     'Lean 4 proof (closed forms from pinned generated constants, linear arithmetic over Int/Rat) + generated constants + full-day sweep correspondence')
 
+CHECKS['C10'] = ('4/C10',
+    'Lean 4 theorems over the evaluator model: the event log of ANY formula is the post-order list of its cell/range/variable/call '
+    'nodes, exactly one event per node (a prefix of it when evaluation aborts); a cell event carries the upper-cased label, '
+    'zero-based coordinates and $ markers for every valid label in any case; a range event carries min/max corners whose labels '
+    'recompose from their own coordinates, independent of corner order; the setter keeps the last non-None value (0, FALSE, empty '
+    'text included). Tied to the code by recording every field of all four events on a real Parser for seeded trees, label grids, '
+    'corner orders and setter sequences.',
+    'Trusted: Lean kernel; correspondence harness; listeners are modelled by the values they set (the emitter itself is C20); '
+    'equal rows/columns with different $ markers may report either marker.',
+    'Lean 4 proof (mutual structural induction on expressions; C19 label lemmas; fold over setter calls) + event-log correspondence')
+CHECKS['C15'] = ('4/C15',
+    'Lean 4 theorems over the model of text.py on code-point lists, for ALL strings and integer counts: LEFT/RIGHT/MID are the '
+    'requested slices with the take-all/zero/negative cases, LEFT(s,n)&RIGHT(s,LEN(s)-n) = s even through lexer+parser+evaluator, '
+    'LEN(a&b) = LEN(a)+LEN(b); TRIM/CLEAN/UPPER/LOWER/PROPER are idempotent and change only spaces/controls/case (case mapping '
+    'parametric in a lawful CaseMap, ASCII instance proved lawful); CODE(CHAR(n)) = n for every scalar value; CONCATENATE/TEXTJOIN '
+    'are joins of the flattened items; SUBSTITUTE equals an independently defined leftmost non-overlapping replace-all / '
+    'k-th-occurrence replacement, empty replacement included. Tied to the code on seeded strings over ASCII/control/accented/CJK alphabets.',
+    'Trusted: Lean kernel; correspondence harness; Unicode case tables beyond ASCII (library; idempotence checked by the oracle only); '
+    'str() of floats not modelled; "blank" = empty cell (an empty string is an item).',
+    'Lean 4 proof (list algebra, induction on strings) + model/implementation correspondence')
+CHECKS['C18'] = ('4/C18',
+    'Lean 4 theorems over the model of lookupandreference.py, arrays of unbounded size: CHOOSE returns v_i or an error; INDEX '
+    'equals a non-wrapping specification (element, whole row/column/array, #VALUE!/#REF! for every position outside, text elements '
+    'never subscripted); the glob matcher meets the standard characterisation of * and ?; MATCH type 0 returns the first equal item or '
+    '#N/A, types 1/-1 on sorted arrays return a position holding the largest item <= x / smallest >= x or #N/A (the falsy-candidate '
+    'quirk proved harmless on sorted arrays); INDEX(MATCH) returns the item. Tied to the code on all shapes up to 8x8 and all indices -10..size+10.',
+    'Trusted: Lean kernel; correspondence harness; fnmatch character classes ([seq]) are outside model and statement; str.lower modelled on ASCII.',
+    'Lean 4 proof (list induction, scan invariants) + model/implementation correspondence on complete index sweeps')
+
 NOT_APPLICABLE = {}
 
 
